@@ -502,7 +502,7 @@ def gate(ctx, binp, drv):
 
     # ---------------------------------------------------------------- 4. model-only worst-case search (evidence)
     search = {}
-    ks_search = [k for k in ([1, 2, 3, 4, 5, 6, 7] if quick else list(range(1, 12))) if k in tabs]
+    ks_search = [k for k in ([1, 2, 3, 4, 5, 6, 7] if quick else list(range(1, 11))) if k in tabs]
     fam = ["allmax/allmax", "alt/alt", "allmax/alt", "randsign/randsign", "allmax/impulse", "randsign/allmax"]
     reqs, rmeta = [], []
     for k in ks_search:
